@@ -33,6 +33,8 @@ type Property struct {
 	WorkerEnv func(shard int) []string
 	// PostWorker lets a property inspect a worker's stderr/aux files (race logs).
 	PostWorker func(m *Merged, shard int, dir string)
+	// PostMerge runs over the merged observations of all workers (cross-configuration comparisons).
+	PostMerge func(m *Merged)
 }
 
 var Registry = map[string]*Property{}
@@ -146,6 +148,9 @@ func RunParent(cfg ParentConfig) int {
 	sort.Strings(m.Deaths)
 	sort.Strings(m.Slow)
 
+	if p.PostMerge != nil {
+		p.PostMerge(m)
+	}
 	if p.Threshold != nil && len(m.Inconcl) == 0 {
 		m.Inconcl = append(m.Inconcl, p.Threshold(m)...)
 	}
@@ -263,7 +268,7 @@ func runShard(cfg ParentConfig, p *Property, shard, n int) (rep *Report, deaths,
 			"--shard", strconv.Itoa(shard), "--nshards", strconv.Itoa(n), "--progress", progress, "--report", report,
 			"--skip", joinInts(skip), "--big", joinInts(big), "--auxdir", dir}
 		cmd := exec.Command(cfg.Exe, args...)
-		cmd.Env = append(os.Environ(), "GOTRACEBACK=single")
+		cmd.Env = append(os.Environ(), "GOTRACEBACK=single", "GORACE=halt_on_error=0 log_path="+filepath.Join(dir, "race"))
 		if p.WorkerEnv != nil {
 			cmd.Env = append(cmd.Env, p.WorkerEnv(shard)...)
 		}
